@@ -117,6 +117,14 @@ def model_request(case, perm=0):
             if cfgd.get(k) is not None: pairs.append(("cfg." + k, b_(cfgd[k])))
         if cfgd.get("now") is not None: pairs.append(("cfg.now", time_str(cfgd["now"])))
     pairs.append(("default_config", DEFAULT_CONFIG_PATH))
+    # the argument vector and the environment exactly as the program gets them: the model reads its invocation from these (Model/Argv.v, parse_argv),
+    # the record fields above are what the harness meant and serve requests without a vector
+    if case.get("raw_argv") is None and not case.get("_record_only"):
+        argv, env = argv_env(case)
+        pairs.append(("argv", True))
+        for a in argv: pairs.append(("a", a.encode("utf-8", "surrogateescape")))
+        for k, v in env.items():
+            if k != "TZ": pairs.append(("env." + k, v.encode("utf-8", "surrogateescape")))
     if case.get("tz"): pairs.append(("tz", case["tz"][1]))
     if case.get("clock"): pairs.append(("clock", time_str(case["clock"])))
     if case.get("sink") is not None: pairs.append(("sink", case["sink"]))
